@@ -2,7 +2,7 @@ use crate::api::{LLGuidanceOptions, SkipSpec};
 use crate::grammar_builder::GrammarResult;
 use crate::json::schema::{NumberSchema, StringSchema};
 use crate::{regex_to_lark, HashMap};
-use anyhow::{anyhow, bail, Context, Result};
+use anyhow::{anyhow, bail, ensure, Context, Result};
 use derivre::{ExprRef, JsonQuoteOptions, RegexAst};
 use indexmap::{IndexMap, IndexSet};
 use serde::{Deserialize, Serialize};
@@ -927,6 +927,15 @@ impl Compiler {
 
         // If max_items is None, we can add an infinite tail of items later
         let n_to_add = max_items.map_or(arr.prefix_items.len().max(min_items), |max| max);
+        // Every listed item costs at least one grammar symbol, so a count beyond the grammar size
+        // limit can never succeed; refuse it before materialising that many items.
+        self.builder.check_limits()?;
+        ensure!(
+            n_to_add <= self.builder.limits().max_grammar_size,
+            "array with minItems/maxItems of {} is too big (grammar size limit: {})",
+            n_to_add,
+            self.builder.limits().max_grammar_size
+        );
 
         for i in 0..n_to_add {
             let item = if i < arr.prefix_items.len() {
